@@ -208,3 +208,101 @@ def reset_summary(F, fn, sem, methods=RESET_METHODS, depth=0, memo=None):
 
 def diverges(fn):
     return fn.cfg.noreturn
+
+
+# ---------------------------------------------------------------- plan structure (SF-PLAN)
+def space_types(F):
+    return {im["self"] for im in F.impls_of("policy::space::Space")}
+
+
+def struct_fields(F, adt):
+    a = F.adts.get(adt)
+    if not a or a["kind"] != "struct":
+        return []
+    return [(f["name"], f["ty_head"]) for f in a["variants"][0]["fields"]]
+
+
+def space_paths(F, adt, prefix=(), depth=0, spaces=None):
+    """All field paths (tuples of field names) below struct `adt` whose type implements Space,
+    descending through non-space structs of the plan:: modules (parents)."""
+    spaces = spaces if spaces is not None else space_types(F)
+    out = {}
+    if depth > 4:
+        return out
+    for name, head in struct_fields(F, adt):
+        if head in spaces:
+            out[prefix + (name,)] = head
+        elif head.startswith("plan::") and head in F.adts and F.adts[head]["kind"] == "struct":
+            out.update(space_paths(F, head, prefix + (name,), depth + 1, spaces))
+    return out
+
+
+def field_chain(t):
+    """('a','b') for field(field(arg1,'a'),'b') (after strip); None if not a pure chain from arg1."""
+    names = []
+    t = strip(t)
+    while t and t[0] == "field":
+        names.append(t[2])
+        t = strip(t[1])
+    if t == ("arg", 1):
+        return tuple(reversed(names))
+    return None
+
+
+def receiver_paths(F, fn, t, prefix, depth=0):
+    """Possible plan-relative field paths of a receiver tree evaluated in fn whose `self` is at `prefix`."""
+    t = strip(t)
+    ch = field_chain(t)
+    if ch is not None:
+        return {prefix + ch}
+    out = set()
+    if t and t[0] == "phi":
+        for a in t[1]:
+            out |= receiver_paths(F, fn, a, prefix, depth)
+        return out
+    if t and t[0] == "call" and isinstance(t[1], str) and depth < 3 and t[3]:
+        h = F.fns.get(t[2] or t[1])
+        if h is not None and h.q.startswith("plan::") and h.kind != "closure":
+            inner = receiver_paths(F, fn, t[3][0], prefix, depth + 1)
+            for p in inner:
+                for r, rt in h.flow.return_trees():
+                    out |= receiver_paths(F, h, rt, p, depth + 1)
+    return out
+
+
+def role_calls(F, plan_adt, role, spaces=None):
+    """Walk <plan as Plan>::role and the plan-local helpers it calls. Returns
+    (covered: {path: [(fn, callsite)]}, wrong_role: [(path, fn, callsite)], visited fns)."""
+    spaces = spaces if spaces is not None else space_types(F)
+    sp = space_paths(F, plan_adt, spaces=spaces)
+    root = F.fns.get("<%s as plan::global::Plan>::%s" % (plan_adt, role))
+    if root is None:
+        raise AnalysisError("plan %s has no %s body" % (plan_adt, role))
+    covered = {}
+    wrong = []
+    visited = set()
+    other = {"prepare": "release", "release": "prepare"}.get(role)
+
+    def visit(fn, prefix, depth):
+        if (fn.q, prefix) in visited or depth > 5:
+            return
+        visited.add((fn.q, prefix))
+        for cs in live_calls(fn):
+            if cs.q is None or not cs.args or is_transparent_call(cs):
+                continue
+            paths = receiver_paths(F, fn, fn.flow.arg_tree(cs, 0), prefix)
+            if not paths:
+                continue
+            nm = cs.name
+            for p in paths:
+                if p in sp:
+                    if nm == role or nm.startswith(role + "_"):
+                        covered.setdefault(p, []).append((fn, cs))
+                    elif other and (nm == other or nm.startswith(other + "_")):
+                        wrong.append((p, fn, cs))
+                else:
+                    h = local_helper(F, cs)
+                    if h is not None and h.q.startswith("plan::") and h.kind != "closure":
+                        visit(h, p, depth + 1)
+    visit(root, (), 0)
+    return covered, wrong, sp, root
